@@ -16,25 +16,33 @@ a stream opened under an already cancelled context never reaches the server hand
 `reach` argument of `runStream`/`start`; everything below that mentions cancellation fixes it to `false`. -/
 abbrev assumedReach : Bool := false
 
-theorem start_reach (script : List (Stream μ)) (req : ρ) : (start assumedReach script req).reach = false := by
+/-- how a real gRPC stream reports the caller's cancellation: with a status error, for which
+`errors.Is(err, context.Canceled)` is false (`Cli.cancelIs = false`).  The other case — the error is
+or wraps `context.Canceled` — is `cancelled_never_retried_when_error_is_canceled`. -/
+abbrev grpcCancelIs : Bool := false
+
+theorem start_quiet (script : List (Stream μ)) (req : ρ) : Quiet (start assumedReach grpcCancelIs script req) := by
+  cases script <;> exact Or.inl rfl
+
+theorem start_reach (script : List (Stream μ)) (req : ρ) : (start assumedReach grpcCancelIs script req).reach = false := by
   cases script <;> rfl
 
-theorem start_rest (script : List (Stream μ)) (req : ρ) : (start assumedReach script req).rest = script.tail := by
+theorem start_rest (script : List (Stream μ)) (req : ρ) : (start assumedReach grpcCancelIs script req).rest = script.tail := by
   cases script <;> rfl
 
-theorem start_reqs (script : List (Stream μ)) (req : ρ) : (start assumedReach script req).reqs = [req] := by
+theorem start_reqs (script : List (Stream μ)) (req : ρ) : (start assumedReach grpcCancelIs script req).reqs = [req] := by
   cases script <;> rfl
 
 /-- `delivers_concat`: what the caller received, in order, is exactly the concatenation of the
 messages of the streams the server served (no loss, no duplicate, no reordering across re-opens);
 `n` = number of requests the server saw. -/
 theorem delivers_concat (watch : Bool) (max : Nat) (script : List (Stream μ)) (req : ρ) :
-    let r := runStream assumedReach watch max none false script req
+    let r := runStream assumedReach grpcCancelIs watch max none false script req
     r.delivered = (script.take r.final.reqs.length).flatMap (·.msgs) := by
   intro r
-  obtain ⟨k, _, h⟩ := recvLoop_adv watch max (totalMsgs script + 2) none (start assumedReach script req) (start_reach _ _)
+  obtain ⟨k, _, h⟩ := recvLoop_adv watch max (totalMsgs script + 2) none (start assumedReach grpcCancelIs script req) (start_quiet _ _)
   have hnil : r.final.cur = [] := by
-    apply recvLoop_cur_nil _ _ _ _ (start_reach _ _)
+    apply recvLoop_cur_nil _ _ _ _ (start_quiet _ _)
     cases script with
     | nil => simp [remaining, start, totalMsgs]
     | cons s rs => simp [remaining, start, totalMsgs]
@@ -51,10 +59,10 @@ theorem delivers_concat (watch : Bool) (max : Nat) (script : List (Stream μ)) (
 /-- whatever the caller does (cancel after `n` messages or never), what it received is a prefix of
 the concatenation of the served streams' messages: nothing lost, duplicated or reordered -/
 theorem delivered_is_prefix (watch : Bool) (max : Nat) (ca : Option Nat) (script : List (Stream μ)) (req : ρ) :
-    let r := runStream assumedReach watch max ca false script req
+    let r := runStream assumedReach grpcCancelIs watch max ca false script req
     r.delivered <+: (script.take r.final.reqs.length).flatMap (·.msgs) := by
   intro r
-  obtain ⟨k, _, h⟩ := recvLoop_adv watch max (totalMsgs script + 2) ca (start assumedReach script req) (start_reach _ _)
+  obtain ⟨k, _, h⟩ := recvLoop_adv watch max (totalMsgs script + 2) ca (start assumedReach grpcCancelIs script req) (start_quiet _ _)
   have hm := h.msgs
   have hr := h.reqs
   change r.delivered ++ r.final.cur = _ at hm
@@ -69,17 +77,17 @@ theorem delivered_is_prefix (watch : Bool) (max : Nat) (ca : Option Nat) (script
 /-- `requests_seen`: every request that reached the server is the original request; their number is
 1 + the number of re-opened streams. -/
 theorem requests_seen (watch : Bool) (max : Nat) (ca : Option Nat) (script : List (Stream μ)) (req : ρ) :
-    ∃ k, (runStream assumedReach watch max ca false script req).final.reqs = List.replicate (k + 1) req := by
-  obtain ⟨k, _, h⟩ := recvLoop_adv watch max (totalMsgs script + 2) ca (start assumedReach script req) (start_reach _ _)
+    ∃ k, (runStream assumedReach grpcCancelIs watch max ca false script req).final.reqs = List.replicate (k + 1) req := by
+  obtain ⟨k, _, h⟩ := recvLoop_adv watch max (totalMsgs script + 2) ca (start assumedReach grpcCancelIs script req) (start_quiet _ _)
   refine ⟨k, ?_⟩
   have hr := h.reqs
-  change (runStream assumedReach watch max ca false script req).final.reqs = _ at hr
+  change (runStream assumedReach grpcCancelIs watch max ca false script req).final.reqs = _ at hr
   rw [hr]
   cases script <;> simp [start, List.replicate_succ]
 
 /-- one `RecvMsg` re-opens at most `max + 1` streams, and gives up (returns the break's error) only
 after exactly `max + 1` re-opened streams delivered nothing -/
-theorem reopen_budget (max : Nat) (c : Cli μ ρ) (hreach : c.reach = false) :
+theorem reopen_budget (max : Nat) (c : Cli μ ρ) (hreach : Quiet c) :
     match recvMsg true max false c with
     | .msg _ c' => c'.reqs.length ≤ c.reqs.length + (max + 1)
     | .fail e c' => e ≠ .blocked → c'.reqs.length = c.reqs.length + (max + 1) ∧
@@ -108,13 +116,13 @@ a run re-opens there are never more than `max + 1` consecutive ones without a me
 that ends with the stream's own error (EOF / status error — i.e. not blocked, not cancelled) gave up
 only after exactly `max + 1` message-less re-opens in a row. -/
 theorem run_budget (max : Nat) (ca : Option Nat) (script : List (Stream μ)) (req : ρ) :
-    let r := runStream assumedReach true max ca false script req
+    let r := runStream assumedReach grpcCancelIs true max ca false script req
     let reopened := openedFrom script.tail (r.final.reqs.length - 1)
     segOk max 0 reopened = true ∧ ((r.err = .eof ∨ r.err = .unavailable) → cnt 0 reopened = max + 1) := by
   intro r reopened
-  obtain ⟨k, h1, h2, h3⟩ := recvLoop_seg true max (totalMsgs script + 2) ca (start assumedReach script req) (start_reach _ _)
+  obtain ⟨k, h1, h2, h3⟩ := recvLoop_seg true max (totalMsgs script + 2) ca (start assumedReach grpcCancelIs script req) (start_quiet _ _)
   have hk : r.final.reqs.length - 1 = k := by
-    change (recvLoop true max ca (totalMsgs script + 2) (start assumedReach script req)).final.reqs.length - 1 = k
+    change (recvLoop true max ca (totalMsgs script + 2) (start assumedReach grpcCancelIs script req)).final.reqs.length - 1 = k
     rw [h1, start_reqs]; simp
   rw [start_rest] at h2 h3
   show segOk max 0 (openedFrom script.tail (r.final.reqs.length - 1)) = true ∧
@@ -128,36 +136,44 @@ stream under the cancelled context, and because that stream never reaches the ha
 log is unchanged and the call fails -/
 theorem cancelled_never_retried (watch : Bool) (max : Nat) (c : Cli μ ρ) (hreach : c.reach = false) :
     ∃ e, recvMsg watch max true c = .fail e c :=
-  ⟨_, recvMsg_cancelled watch max c hreach⟩
+  ⟨_, recvMsg_cancelled watch max c (Or.inl hreach)⟩
+
+/-- the interceptor's cancellation test is keyed on "the caller cancelled" (`errors.Is(err,
+context.Canceled)`), not on the error's identity: whenever the current stream reports the
+cancellation with an error that is OR WRAPS `context.Canceled`, `RecvMsg` returns it at once and
+nothing is re-opened — on ANY transport, also one that would let a stream opened under a cancelled
+context reach the server (`reach = true`) -/
+theorem cancelled_never_retried_when_error_is_canceled (watch : Bool) (max : Nat) (c : Cli μ ρ)
+    (h : c.cancelIs = true) : recvMsg watch max true c = .fail .ctxCanceled c := by
+  cases watch <;> simp [recvMsg, recvCancelled, h]
 
 /-- the assumption is necessary: on a transport where such a stream did reach the handler, the watch
 interceptor WOULD make the server see one more request after the cancellation -/
-theorem cancelled_retry_reaches_server_without_assumption (max : Nat) (c : Cli μ ρ) (hreach : c.reach = true) :
+theorem cancelled_retry_reaches_server_without_assumption (max : Nat) (c : Cli μ ρ) (hreach : c.reach = true)
+    (hci : c.cancelIs = false) :
     recvMsg true max true c = .fail .ctxCanceled { c with reqs := c.reqs ++ [c.sent] } := by
-  simp [recvMsg, recvCancelled, hreach]
+  simp [recvMsg, recvCancelled, hreach, hci]
 
 /-- `cancelled_never_retried` (whole run): cancelling after `n` messages delivers the first `n`
 messages of the uncancelled run, and the server has seen a prefix of what it would have seen -/
 theorem cancelled_run_is_prefix (watch : Bool) (max n : Nat) (script : List (Stream μ)) (req : ρ) :
-    (runStream assumedReach watch max (some n) false script req).delivered =
-      ((runStream assumedReach watch max none false script req).delivered).take n ∧
-    (runStream assumedReach watch max (some n) false script req).final.reqs <+:
-      (runStream assumedReach watch max none false script req).final.reqs :=
-  recvLoop_cancel_prefix watch max _ n _ (start_reach _ _)
+    (runStream assumedReach grpcCancelIs watch max (some n) false script req).delivered =
+      ((runStream assumedReach grpcCancelIs watch max none false script req).delivered).take n ∧
+    (runStream assumedReach grpcCancelIs watch max (some n) false script req).final.reqs <+:
+      (runStream assumedReach grpcCancelIs watch max none false script req).final.reqs :=
+  recvLoop_cancel_prefix watch max _ n _ (start_quiet _ _)
 
 /-- cancellation while `Recv` is BLOCKED on a silent stream (the typical end of a watch): the run
 delivers what the blocked run had delivered, the server sees no further request, and the caller gets
 `context.Canceled` (watch) / the gRPC cancellation status (other streams) -/
 theorem blocked_cancel_never_retried (watch : Bool) (max : Nat) (script : List (Stream μ)) (req : ρ) :
-    let r := runStream assumedReach watch max none false script req
-    let r' := runStream assumedReach watch max none true script req
+    let r := runStream assumedReach grpcCancelIs watch max none false script req
+    let r' := runStream assumedReach grpcCancelIs watch max none true script req
     r'.delivered = r.delivered ∧ r'.final.reqs = r.final.reqs ∧
-    (r.err = .blocked → r'.err = (if watch then .ctxCanceled else .rpcCanceled)) ∧ (r.err ≠ .blocked → r'.err = r.err) := by
+    (r.err = .blocked → r'.err = cancelErr watch r.final) ∧ (r.err ≠ .blocked → r'.err = r.err) := by
   intro r r'
-  obtain ⟨k, _, h⟩ := recvLoop_adv watch max (totalMsgs script + 2) none (start assumedReach script req) (start_reach _ _)
-  have hfr : r.final.reach = false := by
-    change (recvLoop watch max none (totalMsgs script + 2) (start assumedReach script req)).final.reach = false
-    rw [h.reach]; exact start_reach _ _
+  obtain ⟨k, _, h⟩ := recvLoop_adv watch max (totalMsgs script + 2) none (start assumedReach grpcCancelIs script req) (start_quiet _ _)
+  have hfr : Quiet r.final := (start_quiet script req).of_adv h
   have hr' : r' = cancelWhenBlocked watch r := rfl
   rw [hr']
   unfold cancelWhenBlocked
@@ -168,10 +184,10 @@ theorem blocked_cancel_never_retried (watch : Bool) (max : Nat) (script : List (
 /-- `non_watch_never_retried` (streams): a stream whose method is not in `RPCNeedRetry` is never
 re-opened, whatever the budget, the script and the caller do -/
 theorem non_watch_never_retried (max : Nat) (ca : Option Nat) (script : List (Stream μ)) (req : ρ) :
-    (runStream assumedReach false max ca false script req).final.reqs = [req] := by
-  obtain ⟨k, hk, h⟩ := recvLoop_adv false max (totalMsgs script + 2) ca (start assumedReach script req) (start_reach _ _)
+    (runStream assumedReach grpcCancelIs false max ca false script req).final.reqs = [req] := by
+  obtain ⟨k, hk, h⟩ := recvLoop_adv false max (totalMsgs script + 2) ca (start assumedReach grpcCancelIs script req) (start_quiet _ _)
   have hr := h.reqs
-  change (runStream assumedReach false max ca false script req).final.reqs = _ at hr
+  change (runStream assumedReach grpcCancelIs false max ca false script req).final.reqs = _ at hr
   rw [hr, hk rfl]
   cases script <;> simp [start]
 
@@ -180,9 +196,9 @@ theorem non_watch_never_retried (max : Nat) (ca : Option Nat) (script : List (St
 the budget, non-watch never re-opened) holds of the model for every script, budget and request, for
 runs that end with the stream's own error (uncancelled, not left blocked on a hanging script). -/
 theorem stream_meets_spec [DecidableEq μ] [DecidableEq ρ] (watch : Bool) (max : Nat) (script : List (Stream μ)) (req : ρ)
-    (hend : (runStream assumedReach watch max none false script req).err = .eof ∨
-            (runStream assumedReach watch max none false script req).err = .unavailable) :
-    let r := runStream assumedReach watch max none false script req
+    (hend : (runStream assumedReach grpcCancelIs watch max none false script req).err = .eof ∨
+            (runStream assumedReach grpcCancelIs watch max none false script req).err = .unavailable) :
+    let r := runStream assumedReach grpcCancelIs watch max none false script req
     specStream watch max none false script req r.delivered r.final.reqs r.final.reqs.length = [] := by
   intro r
   obtain ⟨k, hk⟩ := requests_seen watch max none script req
@@ -204,7 +220,7 @@ theorem stream_meets_spec [DecidableEq μ] [DecidableEq ρ] (watch : Bool) (max 
   | false =>
     have := non_watch_never_retried max none script req
     have h4 : r.final.reqs.length = 1 := by
-      change (runStream assumedReach false max none false script req).final.reqs.length = 1
+      change (runStream assumedReach grpcCancelIs false max none false script req).final.reqs.length = 1
       rw [this]; rfl
     simp [h1, h2, h3, h4]
     rw [hdel, h4]
@@ -234,9 +250,9 @@ theorem unary_meets_spec (max : Nat) (outs : List Bool) :
   simp [h1, h2, h.2.2]
 
 -- hypotheses are satisfiable / statements are not vacuous: a concrete run
-example : (runStream false true 1 none false
+example : (runStream false false true 1 none false
     [⟨["a", "b"], .err⟩, ⟨[], .err⟩, ⟨["c"], .eof⟩, ⟨[], .eof⟩, ⟨[], .err⟩, ⟨["never"], .eof⟩] "req").delivered = ["a", "b", "c"] := by decide
-example : (runStream false true 1 none false
+example : (runStream false false true 1 none false
     [⟨["a", "b"], .err⟩, ⟨[], .err⟩, ⟨["c"], .eof⟩, ⟨[], .eof⟩, ⟨[], .err⟩, ⟨["never"], .eof⟩] "req").final.reqs.length = 5 := by decide
 
 end Eru.Props.C36
